@@ -17,6 +17,7 @@
 #include "StrList.h"
 
 #include <cerrno>
+#include <climits>
 
 static void httpHeaderPutStrvf(HttpHeader * hdr, Http::HdrType id, const char *fmt, va_list vargs);
 
@@ -84,7 +85,17 @@ int
 httpHeaderParseInt(const char *start, int *value)
 {
     assert(value);
-    *value = atoi(start);
+    *value = 0;
+
+    // like atoi(), but refuse values that do not fit instead of wrapping them
+    char *end = nullptr;
+    errno = 0;
+    const auto parsed = strtol(start, &end, 10);
+    if (end == start || errno == ERANGE || parsed < INT_MIN || parsed > INT_MAX) {
+        debugs(66, 2, "failed to parse an int header field near '" << start << "'");
+        return 0;
+    }
+    *value = static_cast<int>(parsed);
 
     if (!*value && !xisdigit(*start)) {
         debugs(66, 2, "failed to parse an int header field near '" << start << "'");
